@@ -57,6 +57,7 @@ structure CRead where
   out      : COut
   consumed : Nat
   alloc    : Nat
+  maxReq   : Nat
 deriving Repr
 
 /-- forget the chunking of what is left. -/
@@ -66,57 +67,57 @@ def COut.flat : COut → Raw.Out
   | .size => .size
   | .reject w => .reject w
 
-def CRead.flat (x : CRead) : Raw.Read := ⟨x.out.flat, x.consumed, x.alloc⟩
+def CRead.flat (x : CRead) : Raw.Read := ⟨x.out.flat, x.consumed, x.alloc, x.maxReq⟩
 
 /-- last stage (`Raw.unpackTail`): `io.ReadFull(r.r, bb.B[:lastSize])`, transfer pipe, header, body.
-    `consumed` counts the bytes really read. -/
+    `consumed` counts the bytes really read, `maxReq` the largest `io.ReadFull` length so far. -/
 def unpackTailC (reg : Registry) (size last alloc xferLen : Nat) (pipe : List UInt8) (r3 : Reader) : CRead :=
-  if last < 1 + xferLen then ⟨.reject "err:badpackage", 5 + xferLen, alloc⟩ else
+  let req := max (max 4 xferLen) (last - (1 + xferLen))
   let x := readFull (last - (1 + xferLen)) r3
-  if x.2.1 = false then ⟨.eof, 5 + xferLen + x.1.length, alloc⟩ else
+  if x.2.1 = false then ⟨.eof, 5 + xferLen + x.1.length, alloc, req⟩ else
   match Xfer.onUnpack reg pipe x.1 with
-  | none => ⟨.reject "err:xfer", 4 + last, alloc⟩
+  | none => ⟨.reject "err:xfer", 4 + last, alloc, req⟩
   | some data =>
     match Raw.parseData size pipe data with
-    | .error e => ⟨.reject e, 4 + last, alloc⟩
-    | .ok m => ⟨.ok m x.2.2, 4 + last, alloc⟩
+    | .error e => ⟨.reject e, 4 + last, alloc, req⟩
+    | .ok m => ⟨.ok m x.2.2, 4 + last, alloc, req⟩
 
-/-- middle stage (`Raw.unpackXfer`): `io.ReadFull(r.r, bb.B[:1])`, then `io.ReadFull(r.r, bb.B[:xferLen])`. -/
-def unpackXferC (reg : Registry) (size last cap alloc : Nat) (r1 : Reader) : CRead :=
+/-- middle stage (`Raw.unpackXfer`): `io.ReadFull(r.r, bb.B[:1])`, `minus(lastSize, xferLen)`, then
+    `io.ReadFull(r.r, bb.B[:xferLen])`. -/
+def unpackXferC (reg : Registry) (size last alloc : Nat) (r1 : Reader) : CRead :=
   let x := readFull 1 r1
-  if x.2.1 = false then ⟨.eof, 4 + x.1.length, alloc⟩ else
+  if x.2.1 = false then ⟨.eof, 4 + x.1.length, alloc, 4⟩ else
   match x.1 with
-  | [] => ⟨.eof, 4, alloc⟩
+  | [] => ⟨.eof, 4, alloc, 4⟩
   | xl :: _ =>
-    if cap < xl.toNat then ⟨.reject "panic:cap", 5, alloc⟩ else
+    if last - 1 < xl.toNat then ⟨.reject "err:badpackage", 5, alloc, 4⟩ else
     let y := readFull xl.toNat x.2.2
-    if y.2.1 = false then ⟨.eof, 5 + y.1.length, alloc⟩ else
+    if y.2.1 = false then ⟨.eof, 5 + y.1.length, alloc, max 4 xl.toNat⟩ else
     match Xfer.append reg [] y.1 with
-    | none => ⟨.reject "err:filter", 5 + xl.toNat, alloc⟩
+    | none => ⟨.reject "err:filter", 5 + xl.toNat, alloc, max 4 xl.toNat⟩
     | some pipe => unpackTailC reg size last alloc xl.toNat pipe y.2.2
 
 /-- `rawProto.Unpack` reading from a chunked reader (`Raw.unpack`): `io.ReadFull(r.r, bb.B)` with
     `len(bb.B) = 4`, the size checks, then the stages above. -/
-def unpackChunked (reg : Registry) (limit cap0 : Nat) (r : Reader) : CRead :=
+def unpackChunked (reg : Registry) (limit : Nat) (r : Reader) : CRead :=
   let x := readFull 4 r
-  if x.2.1 = false then ⟨.eof, x.1.length, 4⟩ else
+  if x.2.1 = false then ⟨.eof, x.1.length, 4, 4⟩ else
   match x.1 with
   | [a, b, c, d] =>
     let size := rdBe32 a b c d
-    if size > limit then ⟨.size, 4, 4⟩ else
-    if size < 4 then ⟨.reject "err:badpackage", 4, 4⟩ else
+    if size > limit then ⟨.size, 4, 4, 4⟩ else
+    if size < 4 then ⟨.reject "err:badpackage", 4, 4, 4⟩ else
     let last := size - 4
-    let cap := if cap0 < last then last else cap0
-    if cap < 1 then ⟨.reject "panic:cap", 4, max 4 last⟩ else
-    unpackXferC reg size last cap (max 4 last) x.2.2
-  | _ => ⟨.eof, x.1.length, 4⟩
+    if last < 1 then ⟨.reject "err:badpackage", 4, max 4 last, 4⟩ else
+    unpackXferC reg size last (max 4 last) x.2.2
+  | _ => ⟨.eof, x.1.length, 4, 4⟩
 
 /-- read exactly `n` back-to-back frames from a chunked reader (`Raw.unpackN`). -/
-def unpackNChunked (reg : Registry) (limit cap0 : Nat) : Nat → Reader → Option (List Msg × Reader)
+def unpackNChunked (reg : Registry) (limit : Nat) : Nat → Reader → Option (List Msg × Reader)
   | 0, r => some ([], r)
   | n + 1, r =>
-    match (unpackChunked reg limit cap0 r).out with
-    | .ok m rest => (unpackNChunked reg limit cap0 n rest).map (fun p => (m :: p.1, p.2))
+    match (unpackChunked reg limit r).out with
+    | .ok m rest => (unpackNChunked reg limit n rest).map (fun p => (m :: p.1, p.2))
     | _ => none
 
 /-- cut a byte string into chunks of the given sizes (a size 0 gives an empty chunk); what is left after
